@@ -531,6 +531,17 @@ def lint_directory_bounded(ctx):
                              budget=f"{n} trees", witness_confirmed=True,
                              witness={"tree": tree, "patterns": raw, "pattern_source": source, "got": sorted(got), "expected": sorted(want)},
                              note=f"tree {tree} patterns {raw} from {source}: reported {sorted(got)}, expected {sorted(want)}")]
+            # --no-recursive: only the direct children of the target
+            clear_ignore_parser_cache()
+            vs = Orchestrator(project_root=root, config={}).lint_directory(root, recursive=False)
+            got = {os.path.relpath(v.file_path, str(root)) for v in vs if v.rule_id.startswith("magic-numbers")}
+            want_flat = {w for w in want if "/" not in w}
+            cases += 1
+            if got != want_flat:
+                return [dict(name=name, kind="bounded", verdict="refuted", carries=True, tool="real-tree lint runs", cases=cases,
+                             budget=f"{n} trees", witness_confirmed=True,
+                             witness={"tree": tree, "patterns": raw, "recursive": False, "got": sorted(got), "expected": sorted(want_flat)},
+                             note=f"non-recursive: tree {tree} patterns {raw}: reported {sorted(got)}, expected {sorted(want_flat)}")]
             shutil.rmtree(str(root), ignore_errors=True)
     except BaseException as e:  # noqa
         return [dict(name=name, kind="bounded", verdict="unknown", carries=True, tool="real-tree lint runs", cases=cases,
